@@ -216,6 +216,24 @@ class Monitor(object):
             if aff != depend.ALL_ROWS and row not in aff:
               out.append(('lookup-relation-does-not-cover', '%s[%s] looked up %r; matching row %s of %s does not map back'
                           % (node, row, lkey, t, lmap.node)))
+      # exactness (reset_rows before re-evaluation): the relation holds for this row exactly the keys its last
+      # evaluation looked up
+      by_rel = {}
+      for (lmap, rel, lkey) in f.lookups:
+        try:
+          by_rel.setdefault(id(rel), (rel, set()))[1].add(lkey)
+        except TypeError:
+          by_rel.pop(id(rel), None)
+          break
+      for rel, keys in by_rel.values():
+        try:
+          held = set(rel._row_key_map.lookup_left(row, ()))
+        except TypeError:
+          continue
+        if held - keys:
+          stats['stale_registrations'] += 1
+          out.append(('stale-lookup-registration', '%s[%s] last looked up %r in %s but the relation still holds %r'
+                      % (node, row, sorted(map(repr, keys))[:4], rel, sorted(map(repr, held - keys))[:4])))
       for (col, q) in f.gets:
         stats['gets'] += 1
         cn = col.node
